@@ -90,7 +90,7 @@ pub fn run(s: &dyn Subject, ctx: &Ctx) -> Option<DeclReport> {
                 }
             }
             // the same in container positions
-            for (p, nbt, nbi, nbr, back) in &o.nested {
+            for (p, nbt, nbi, nbr, back, inner_back) in &o.nested {
                 rep.executions += 1;
                 if matches!(f, Fmt::Json | Fmt::MsgPack) && nbt != nbi {
                     rep.violate(&format!("{:?}:nested-bytes-differ-from-inner-encoding", f), format!("{:?}@{}", p, raw.show()), show(nbt), show(nbi), String::new());
@@ -98,8 +98,9 @@ pub fn run(s: &dyn Subject, ctx: &Ctx) -> Option<DeclReport> {
                 if nbt != nbr {
                     rep.violate(&format!("{:?}:nested-bytes-differ-from-serde-derived-newtype", f), format!("{:?}@{}", p, raw.show()), show(nbt), show(nbr), String::new());
                 }
-                if let (Some(Ok(inner_back)), Some(b)) = (&o.inner_roundtrip, back) {
-                    if *inner_back == v {
+                // precondition: the inner value round-trips in this format *in this position* (e.g. Some(None) does not in JSON)
+                if let (Some(Ok(ib)), Some(b)) = (inner_back, back) {
+                    if !ib.is_empty() && ib.iter().all(|x| *x == v) {
                         rep.class(&format!("{:?}:{:?}:roundtrip", f, p));
                         match b {
                             crate::subject::DeObs::Ok(vals) if !vals.is_empty() && vals.iter().all(|x| *x == v) => {}
